@@ -145,7 +145,8 @@ Section AddFresh.
       (match var with Some (v, hk) => (v, {| h_rid := r0; h_kind := hk |}) :: vars (s_cl s) | None => vars (s_cl s) end)
       (r0 :: cl_live (s_cl s)) (S r0).
   Hypothesis Hvarkind : forall v p, var = Some (v, HImm p) -> k0 = KImm p.
-  Hypothesis Henv : s_env s' = s_env s.
+  Hypothesis Hclocks : clocks (s_env s') = clocks (s_env s).
+  Hypothesis Hlastclock : lastclock (s_env s') = lastclock (s_env s).
 
   Lemma add_not_in g : In g (c_live c) -> g_rid g <> r0.
   Proof. intros Hg E. pose proof (sim_in_lt s c g HS Hg). unfold r0 in *. lia. Qed.
@@ -167,7 +168,7 @@ Section AddFresh.
     (forall v h, get_var v (vars (s_cl s')) = Some h -> h_rid h < next_rid (s_cl s')) /\
     (Forall (fun t => tv_norm t = true) (clocks (s_env s')) /\ tv_norm (lastclock (s_env s')) = true).
   Proof.
-    rewrite Hcl, Henv. simpl.
+    rewrite Hcl, Hclocks, Hlastclock. simpl.
     refine (conj _ (conj _ (conj _ (conj _ (conj _ (conj _ _)))))).
     - constructor; [|apply (sm_nodup s c HS)]. intros X. apply in_map_iff in X.
       destruct X as [g [E Hg]]. exact (add_not_in g Hg E).
@@ -251,7 +252,8 @@ Section RemoveLive.
   Hypothesis Hvars : vars (s_cl s') = vars (s_cl s).
   Hypothesis Hlive : cl_live (s_cl s') = remove_nat r (cl_live (s_cl s)).
   Hypothesis Hnext : next_rid (s_cl s') = next_rid (s_cl s).
-  Hypothesis Henv : s_env s' = s_env s.
+  Hypothesis Hclocks : clocks (s_env s') = clocks (s_env s).
+  Hypothesis Hlastclock : lastclock (s_env s') = lastclock (s_env s).
 
   Lemma rm_live_rid x k : x <> r -> live_rid c x k -> live_rid c' x k.
   Proof. apply (live_rid_remove c c' r). reflexivity. Qed.
@@ -275,7 +277,7 @@ Section RemoveLive.
     (forall v h, get_var v (vars (s_cl s')) = Some h -> h_rid h < next_rid (s_cl s')) /\
     (Forall (fun t => tv_norm t = true) (clocks (s_env s')) /\ tv_norm (lastclock (s_env s')) = true).
   Proof.
-    rewrite Hvars, Hlive, Hnext, Henv.
+    rewrite Hvars, Hlive, Hnext, Hclocks, Hlastclock.
     refine (conj _ (conj _ (conj _ (conj _ (conj _ (conj _ _)))))).
     - simpl. apply nodup_map_filter. apply (sm_nodup s c HS).
     - intros g Hg. apply rm_in in Hg. apply (sm_used s c HS). tauto.
@@ -619,4 +621,432 @@ Proof.
       * eapply (sm_imm_nodup s c HS); eauto.
   - apply (rm_frame_net s _ c (r_rid r) (KImm m) HS Hlr); reflexivity.
   - apply (rm_frame_tmr s _ c (r_rid r) (KImm m) HS Hlr); reflexivity.
+Qed.
+
+Lemma Sim_emit s c e : Sim s c -> Sim (emit e s) c.
+Proof. intros HS. eapply Sim_congr; eauto. Qed.
+
+(* ================================================================ descriptors *)
+(* the network part of the relation only reads the per-descriptor views *)
+Lemma sim_net_views s c n' :
+  Sim s c -> NetInv n' ->
+  (forall f d, field n' f d = field (s_net s) f d) ->
+  (forall f, rev_at n' f = rev_at (s_net s) f) ->
+  Sim (set_net s n') c.
+Proof.
+  intros HS HI Hf Hr. destruct HS. constructor; simpl; auto.
+  - intros fd dir rc. rewrite Hf. auto.
+  - intros g fd dir Hg Hk. rewrite Hf. eauto.
+  - intros fd dir rc g. rewrite Hf, Hr. eauto.
+  - intros fd. rewrite Hr. auto.
+Qed.
+
+Lemma net_live_false_iff fd dir l :
+  net_live fd dir l = false <-> forall g, In g l -> g_kind g <> KNet fd dir.
+Proof.
+  split.
+  - intros H g Hg Hk. assert (net_live fd dir l = true) by (apply net_live_true; exists g; auto). congruence.
+  - intros H. destruct (net_live fd dir l) eqn:E; [|reflexivity].
+    apply net_live_true in E. destruct E as [g [A B]]. exfalso. exact (H g A B).
+Qed.
+
+Lemma good_net_reg s cb fd opn s' :
+  Good s -> exec_op (ONetReg cb fd opn 0) s = Ok s' -> Good s'.
+Proof.
+  intros [c [Hc HS]] H. unfold exec_op in H. cbn [Nat.eqb negb] in H.
+  destruct (net_register cb fd opn (next_rid (s_cl s)) (s_net s)) as [[e n]| | |] eqn:En; cbn [bind] in H; try discriminate.
+  destruct (net_register_spec cb fd opn _ (s_net s) e n (sm_net s c HS) En) as [HIn [Hinit Hspec]].
+  destruct e as [err|].
+  - (* the call failed *)
+    destruct Hspec as [Hf [Hr Hex]]. inversion H; subst s'. clear H.
+    assert (Hstep : cstep4 c (ERegFailNet fd opn err) = Some c).
+    { destruct err; try reflexivity. destruct (Hex eq_refl) as [dir [rc [Hfd [Hop Hfield]]]].
+      unfold cstep4, net_slot_live. apply Z.leb_le in Hfd. rewrite Hfd, Hop.
+      destruct (sm_net1 s c HS _ _ _ Hfield) as [g [A [B C]]].
+      assert (net_live (Z.to_nat fd) dir (c_live c) = true) by (apply net_live_true; exists g; auto).
+      rewrite H. reflexivity. }
+    eapply Good_emit; [exact Hc | exact Hstep | reflexivity |].
+    apply Sim_emit. apply sim_net_views; auto.
+  - (* a new registration *)
+    destruct Hspec as [dir [Hfd [Hop [Hnone [Hf Hr]]]]].
+    rewrite Hop in H. inversion H; subst s'. clear H.
+    set (rid := next_rid (s_cl s)) in *. set (fdn := Z.to_nat fd) in *.
+    assert (Hnl : net_live fdn dir (c_live c) = false).
+    { apply net_live_false_iff. intros g Hg Hk. destruct (sm_net2 s c HS g fdn dir Hg Hk) as [rc [A B]]. congruence. }
+    eapply Good_emit; [exact Hc | apply cstep4_reg_net; [apply (sim_next_unused s c HS) | exact Hnl] | reflexivity |].
+    apply Sim_build.
+    + eapply (add_common s _ c (KNet fdn dir) 0%N HS None); try reflexivity. intros v p X. discriminate X.
+    + apply (add_frame_imm s _ c (KNet fdn dir) 0%N HS). reflexivity.
+    + simpl. split; [exact HIn|]. split; [|split; [|split]].
+      * intros f d rc Hfield. rewrite Hf in Hfield.
+        destruct (Nat.eqb f fdn && Bool.eqb d dir) eqn:E.
+        -- apply andb_true_iff in E. destruct E as [E1 E2]. apply Nat.eqb_eq in E1. apply eqb_prop in E2. subst f d.
+           inversion Hfield; subst rc. eexists. split; [left; reflexivity|]. split; reflexivity.
+        -- eapply (live_rid_cons c); [reflexivity|]. eapply (sm_net1 s c HS); eauto.
+      * intros g f d [<- | Hg] Hk.
+        -- simpl in Hk. inversion Hk; subst f d. exists (the_rec cb rid). rewrite Hf.
+           rewrite Nat.eqb_refl, eqb_reflx. simpl. split; reflexivity.
+        -- destruct (sm_net2 s c HS g f d Hg Hk) as [rc [A B]]. exists rc. split; [|exact B].
+           rewrite Hf. destruct (Nat.eqb f fdn && Bool.eqb d dir) eqn:E; [|exact A].
+           apply andb_true_iff in E. destruct E as [E1 E2]. apply Nat.eqb_eq in E1. apply eqb_prop in E2. subst f d.
+           congruence.
+      * intros f d rc g Hrv Hfield Hg Er. rewrite Hr in Hrv. rewrite Hf in Hfield.
+        destruct (Nat.eqb f fdn && Bool.eqb d dir) eqn:E.
+        -- exfalso. apply andb_true_iff in E. destruct E as [E1 E2]. apply Nat.eqb_eq in E1. apply eqb_prop in E2. subst f d.
+           apply (rev_at_field (s_net s) fdn dir (sm_net s c HS) Hrv). exact Hnone.
+        -- destruct Hg as [<- | Hg].
+           ++ exfalso. simpl in Er. pose proof (sim_rid_lt s c _ _ HS (sm_net1 s c HS f d rc Hfield)) as L.
+              rewrite <- Er in L. unfold rid in L. lia.
+           ++ eapply (sm_net3 s c HS); eauto.
+      * intros f Hrv. rewrite Hr in Hrv. apply (sm_net4 s c HS). exact Hrv.
+    + apply (add_frame_tmr s _ c (KNet fdn dir) 0%N HS). reflexivity.
+Qed.
+
+(* the network clauses after the registration in field (s0, dir0) has been removed *)
+Lemma sim_net_removed s c n' s0 dir0 rc :
+  Sim s c -> NetInv n' ->
+  field (s_net s) s0 dir0 = Some rc ->
+  (forall f d, field n' f d = if Nat.eqb f s0 && Bool.eqb d dir0 then None else field (s_net s) f d) ->
+  get_rel (s_net s) n' ->
+  let c' := {| c_live := remove_reg (r_rid rc) (c_live c); c_used := c_used c; c_lastpoll := c_lastpoll c;
+               c_clock := c_clock c |} in
+  NetInv n' /\
+  (forall fd dir rc', field n' fd dir = Some rc' -> live_rid c' (r_rid rc') (KNet fd dir)) /\
+  (forall g fd dir, In g (c_live c') -> g_kind g = KNet fd dir ->
+      exists rc', field n' fd dir = Some rc' /\ r_rid rc' = g_rid g) /\
+  (forall fd dir rc' g, rb_dir (rev_at n' fd) dir = true ->
+      field n' fd dir = Some rc' -> In g (c_live c') -> g_rid g = r_rid rc' ->
+      g_ready g = true \/ errhup_for fd (c_lastpoll c') = true) /\
+  (forall fd, rb_errhup (rev_at n' fd) = true -> errhup_for fd (c_lastpoll c') = true).
+Proof.
+  intros HS HI Hrc Hf [G1 G2] c'.
+  pose proof (sm_net1 s c HS s0 dir0 rc Hrc) as Hlr.
+  assert (Hsplit : forall f d rc', field n' f d = Some rc' ->
+            field (s_net s) f d = Some rc' /\ ~ (f = s0 /\ d = dir0)).
+  { intros f d rc' H. rewrite Hf in H. destruct (Nat.eqb f s0 && Bool.eqb d dir0) eqn:E; [discriminate|].
+    split; [exact H|]. intros [-> ->]. rewrite Nat.eqb_refl, eqb_reflx in E. discriminate. }
+  split; [exact HI|]. split; [|split; [|split]].
+  - intros f d rc' H. destruct (Hsplit f d rc' H) as [Hold Hne].
+    pose proof (sm_net1 s c HS f d rc' Hold) as L.
+    eapply (live_rid_remove c); [reflexivity | | exact L].
+    apply (rm_other_kind s c (r_rid rc) (KNet s0 dir0) HS Hlr _ (KNet f d) L).
+    intros X. inversion X; subst. apply Hne. auto.
+  - intros g f d Hg Hk. apply in_remove_reg in Hg. destruct Hg as [Hg Hne].
+    destruct (sm_net2 s c HS g f d Hg Hk) as [rc' [A B]]. exists rc'. split; [|exact B].
+    rewrite Hf. destruct (Nat.eqb f s0 && Bool.eqb d dir0) eqn:E; [|exact A].
+    exfalso. apply andb_true_iff in E. destruct E as [E1 E2]. apply Nat.eqb_eq in E1. apply eqb_prop in E2. subst f d.
+    apply Hne. rewrite <- B. congruence.
+  - intros f d rc' g Hrv H Hg Er. destruct (Hsplit f d rc' H) as [Hold Hne].
+    apply in_remove_reg in Hg. destruct Hg as [Hg _]. simpl.
+    destruct (G1 f d Hrv) as [Hb | He].
+    + eapply (sm_net3 s c HS); eauto.
+    + right. apply (sm_net4 s c HS). exact He.
+  - intros f Hrv. simpl. apply (sm_net4 s c HS). apply G2. exact Hrv.
+Qed.
+
+Lemma rev_shrinks_get_rel n n' s0 d0 : rev_shrinks n n' s0 d0 -> get_rel n n'.
+Proof.
+  intros [A B]. split; [|exact B]. intros f d H. left. apply (A f d H).
+Qed.
+
+Lemma good_net_cancel s fd opn s' :
+  Good s -> exec_op (ONetCancel fd opn) s = Ok s' -> Good s'.
+Proof.
+  intros [c [Hc HS]] H. unfold exec_op in H.
+  destruct (net_cancel fd opn (s_net s)) as [[x n]| | |] eqn:En; cbn [bind] in H; try discriminate.
+  destruct (net_cancel_spec fd opn (s_net s) x n (sm_net s c HS) En) as [HIn [Hinit Hspec]].
+  destruct x as [rc | err].
+  - destruct Hspec as [dir [Hfd [Hop [Hrc [Hf Hsh]]]]]. inversion H; subst s'. clear H.
+    pose proof (sm_net1 s c HS _ _ _ Hrc) as Hlr. destruct Hlr as [g [Hg [Er Hk]]].
+    assert (Hfind : find_reg (r_rid rc) (c_live c) = Some g).
+    { rewrite <- Er. apply find_reg_in; [apply (sm_nodup s c HS) | exact Hg]. }
+    assert (Hlr : live_rid c (r_rid rc) (KNet (Z.to_nat fd) dir)) by (exists g; auto).
+    eapply Good_emit; [exact Hc | eapply cstep4_cancel; eauto | reflexivity |].
+    apply Sim_build.
+    + apply (rm_common s _ c (r_rid rc) HS); reflexivity.
+    + apply (rm_frame_imm s _ c (r_rid rc) _ HS Hlr); reflexivity.
+    + apply (sim_net_removed s c n (Z.to_nat fd) dir rc HS HIn Hrc Hf). eapply rev_shrinks_get_rel; eauto.
+    + apply (rm_frame_tmr s _ c (r_rid rc) _ HS Hlr); reflexivity.
+  - destruct Hspec as [Hf [Hr Hnone]]. inversion H; subst s'. clear H.
+    assert (Hstep : cstep4 c (ECancelFail fd opn err) = Some c).
+    { unfold cstep4, net_slot_live. destruct (0 <=? fd)%Z eqn:E0; [|reflexivity].
+      destruct (op_dir opn) as [d|] eqn:Eop; [|reflexivity].
+      apply Z.leb_le in E0.
+      assert (net_live (Z.to_nat fd) d (c_live c) = false).
+      { apply net_live_false_iff. intros g Hg Hk. destruct (sm_net2 s c HS g _ _ Hg Hk) as [rc [A B]].
+        rewrite (Hnone d E0 eq_refl) in A. discriminate. }
+      rewrite H. reflexivity. }
+    eapply Good_emit; [exact Hc | exact Hstep | reflexivity |].
+    apply Sim_emit. apply sim_net_views; auto.
+Qed.
+
+(* events_network_get *)
+Lemma good_net_get_none s s1 : Good s -> net_inited (s_net s) = true -> net_get_s s = Ok (None, s1) -> Good s1.
+Proof.
+  intros [c [Hc HS]] Hin H. unfold net_get_s in H.
+  destruct (net_get (s_net s)) as [[ro n]| | |] eqn:E; cbn [bind] in H; try discriminate.
+  inversion H; subst ro s1.
+  destruct (net_get_spec (s_net s) None n (sm_net s c HS) Hin E) as [HIn [_ [[G1 G2] Hres]]]. simpl in Hres.
+  exists c. split; [exact Hc|].
+  apply Sim_build.
+  - exact (conj (sm_nodup _ _ HS) (conj (sm_used _ _ HS) (conj (sm_fresh _ _ HS) (conj (sm_cl _ _ HS)
+      (conj (sm_vars _ _ HS) (conj (sm_vars_fresh _ _ HS) (sm_env _ _ HS))))))).
+  - exact (conj (sm_imm _ _ HS) (sm_imm_nodup _ _ HS)).
+  - simpl. split; [exact HIn|]. split; [|split; [|split]].
+    + intros fd dir rc. rewrite Hres. apply (sm_net1 s c HS).
+    + intros g fd dir Hg Hk. rewrite Hres. eapply (sm_net2 s c HS); eauto.
+    + intros fd dir rc g Hrv Hfield Hg Er. rewrite Hres in Hfield. destruct (G1 fd dir Hrv) as [Hb | He].
+      * eapply (sm_net3 s c HS); eauto.
+      * right. apply (sm_net4 s c HS). exact He.
+    + intros fd Hrv. apply (sm_net4 s c HS). apply G2. exact Hrv.
+  - exact (conj (sm_tmr _ _ HS) (sm_tmr_nodup _ _ HS)).
+Qed.
+
+Lemma good_net_get_some s r s1 :
+  Good s -> net_inited (s_net s) = true -> net_get_s s = Ok (Some r, s1) ->
+  Good (emit (EInvoke (r_rid r)) (fire_cl r s1)).
+Proof.
+  intros [c [Hc HS]] Hin H. unfold net_get_s in H.
+  destruct (net_get (s_net s)) as [[ro n]| | |] eqn:E; cbn [bind] in H; try discriminate.
+  inversion H; subst ro s1.
+  destruct (net_get_spec (s_net s) (Some r) n (sm_net s c HS) Hin E) as [HIn [_ [Hrel Hres]]].
+  destruct Hres as [s0 [dir [Hrc [Hf Hjust]]]].
+  pose proof (sm_net1 s c HS _ _ _ Hrc) as Hlr. destruct Hlr as [g [Hg [Er Hk]]].
+  assert (Hfind : find_reg (r_rid r) (c_live c) = Some g).
+  { rewrite <- Er. apply find_reg_in; [apply (sm_nodup s c HS) | exact Hg]. }
+  assert (Hlr : live_rid c (r_rid r) (KNet s0 dir)) by (exists g; auto).
+  assert (Hok : g_ready g || errhup_for s0 (c_lastpoll c) = true).
+  { apply orb_true_iff. destruct Hjust as [Hb | He].
+    - eapply (sm_net3 s c HS); eauto.
+    - right. apply (sm_net4 s c HS). exact He. }
+  eapply Good_emit; [exact Hc | eapply cstep4_invoke; [exact Hfind | rewrite Hk; exact Hok] | reflexivity |].
+  apply Sim_build.
+  - apply (rm_common s _ c (r_rid r) HS); reflexivity.
+  - apply (rm_frame_imm s _ c (r_rid r) _ HS Hlr); reflexivity.
+  - apply (sim_net_removed s c n s0 dir r HS HIn Hrc Hf Hrel).
+  - apply (rm_frame_tmr s _ c (r_rid r) _ HS Hlr); reflexivity.
+Qed.
+
+(* ---------------------------------------------------------------- the generic "the checker
+   rewrote its live entries in place" step (a poll marks entries ready, a reset moves a
+   deadline): ids and kinds are unchanged *)
+Section MapLive.
+  Variables (s s' : st) (c : c4) (f : reg -> reg) (lp : list (nat * rbits)) (clk : option tv).
+  Hypothesis HS : Sim s c.
+  Hypothesis Hf : forall g, g_rid (f g) = g_rid g /\ g_kind (f g) = g_kind g.
+  Let c' := {| c_live := map f (c_live c); c_used := c_used c; c_lastpoll := lp; c_clock := clk |}.
+  Hypothesis Hcl : s_cl s' = s_cl s.
+  Hypothesis Hclocks : clocks (s_env s') = clocks (s_env s).
+  Hypothesis Hlastclock : lastclock (s_env s') = lastclock (s_env s).
+
+  Lemma map_in g' : In g' (c_live c') -> exists g, In g (c_live c) /\ g' = f g.
+  Proof. simpl. intros H. apply in_map_iff in H. destruct H as [g [A B]]. exists g. auto. Qed.
+
+  Lemma map_live_rid r k : live_rid c r k -> live_rid c' r k.
+  Proof.
+    intros [g [A [B C]]]. exists (f g). split; [simpl; apply in_map; exact A|].
+    destruct (Hf g) as [X Y]. split; congruence.
+  Qed.
+
+  Lemma map_common :
+    NoDup (map g_rid (c_live c')) /\
+    (forall g, In g (c_live c') -> In (g_rid g) (c_used c')) /\
+    (forall r, In r (c_used c') -> r < next_rid (s_cl s')) /\
+    (forall r, In r (cl_live (s_cl s')) <-> exists g, In g (c_live c') /\ g_rid g = r) /\
+    (forall v r p, get_var v (vars (s_cl s')) = Some {| h_rid := r; h_kind := HImm p |} ->
+        forall g, In g (c_live c') -> g_rid g = r -> g_kind g = KImm p) /\
+    (forall v h, get_var v (vars (s_cl s')) = Some h -> h_rid h < next_rid (s_cl s')) /\
+    (Forall (fun t => tv_norm t = true) (clocks (s_env s')) /\ tv_norm (lastclock (s_env s')) = true).
+  Proof.
+    rewrite Hcl, Hclocks, Hlastclock.
+    refine (conj _ (conj _ (conj _ (conj _ (conj _ (conj _ _)))))).
+    - simpl. rewrite map_map. rewrite (map_ext (fun g => g_rid (f g)) g_rid); [apply (sm_nodup s c HS)|].
+      intros g. apply Hf.
+    - intros g' Hg'. apply map_in in Hg'. destruct Hg' as [g [A ->]]. destruct (Hf g) as [X _]. rewrite X.
+      apply (sm_used s c HS). exact A.
+    - apply (sm_fresh s c HS).
+    - intros r. rewrite (sm_cl s c HS r). split.
+      + intros [g [A B]]. exists (f g). split; [simpl; apply in_map; exact A|]. destruct (Hf g). congruence.
+      + intros [g' [Hg' B]]. apply map_in in Hg'. destruct Hg' as [g [A ->]]. exists g. destruct (Hf g). split; congruence.
+    - intros v r p Hv g' Hg' Er. apply map_in in Hg'. destruct Hg' as [g [A ->]]. destruct (Hf g) as [X Y].
+      rewrite Y. eapply (sm_vars s c HS); eauto. congruence.
+    - apply (sm_vars_fresh s c HS).
+    - apply (sm_env s c HS).
+  Qed.
+
+  Lemma map_frame_imm :
+    s_imm s' = s_imm s ->
+    (forall p q r, nth_error (heads (s_imm s')) p = Some q -> In r q -> live_rid c' (r_rid r) (KImm p)) /\
+    (forall p q, nth_error (heads (s_imm s')) p = Some q -> NoDup (map r_rid q)).
+  Proof.
+    intros E. rewrite E. split; [|apply (sm_imm_nodup s c HS)].
+    intros p q r Hq Hr. apply map_live_rid. eapply (sm_imm s c HS); eauto.
+  Qed.
+
+  Lemma map_frame_tmr :
+    s_tmr s' = s_tmr s -> (forall g, g_due (f g) = g_due g) ->
+    (forall x, In x (heap (s_tmr s')) ->
+      exists g, In g (c_live c') /\ g_rid g = r_rid (t_rec x) /\ g_kind g = KTimer (t_orig x) /\
+                g_due g = us (t_deadline x) /\ tv_norm (t_deadline x) = true /\ tv_norm (t_orig x) = true) /\
+    NoDup (map (fun x => r_rid (t_rec x)) (heap (s_tmr s'))).
+  Proof.
+    intros E Hdue. rewrite E. split; [|apply (sm_tmr_nodup s c HS)].
+    intros x Hx. destruct (sm_tmr s c HS x Hx) as [g [A [B [C [D F]]]]]. exists (f g).
+    split; [simpl; apply in_map; exact A|]. destruct (Hf g) as [X Y]. rewrite X, Y, Hdue. auto.
+  Qed.
+
+  (* the network clauses when the descriptors were not touched and readiness marks only grow *)
+  Lemma map_frame_net :
+    s_net s' = s_net s -> lp = c_lastpoll c -> (forall g, g_ready g = true -> g_ready (f g) = true) ->
+    NetInv (s_net s') /\
+    (forall fd dir rc, field (s_net s') fd dir = Some rc -> live_rid c' (r_rid rc) (KNet fd dir)) /\
+    (forall g fd dir, In g (c_live c') -> g_kind g = KNet fd dir ->
+        exists rc, field (s_net s') fd dir = Some rc /\ r_rid rc = g_rid g) /\
+    (forall fd dir rc g, rb_dir (rev_at (s_net s') fd) dir = true ->
+        field (s_net s') fd dir = Some rc -> In g (c_live c') -> g_rid g = r_rid rc ->
+        g_ready g = true \/ errhup_for fd (c_lastpoll c') = true) /\
+    (forall fd, rb_errhup (rev_at (s_net s') fd) = true -> errhup_for fd (c_lastpoll c') = true).
+  Proof.
+    intros E Hlp Hready. rewrite E. split; [apply (sm_net s c HS)|]. split; [|split; [|split]].
+    - intros fd dir rc H. apply map_live_rid. eapply (sm_net1 s c HS); eauto.
+    - intros g' fd dir Hg' Hk. apply map_in in Hg'. destruct Hg' as [g [A ->]]. destruct (Hf g) as [X Y].
+      rewrite X. eapply (sm_net2 s c HS); eauto. congruence.
+    - intros fd dir rc g' Hrv H Hg' Er. apply map_in in Hg'. destruct Hg' as [g [A ->]]. destruct (Hf g) as [X Y].
+      simpl. rewrite Hlp. destruct (sm_net3 s c HS fd dir rc g Hrv H A) as [R | R]; [congruence | left; auto | right; exact R].
+    - intros fd Hrv. simpl. rewrite Hlp. apply (sm_net4 s c HS). exact Hrv.
+  Qed.
+End MapLive.
+
+Lemma Good_emit2 s X e c c' :
+  csteps4 c4_init (rev (s_tr s)) = Some c -> s_tr X = s_tr s -> cstep4 c e = Some c' ->
+  Sim (emit e X) c' -> Good (emit e X).
+Proof.
+  intros Hc Htr He HS. eapply Good_emit; eauto. simpl. rewrite Htr. reflexivity.
+Qed.
+
+(* ---------------------------------------------------------------- poll *)
+Lemma mark_ready_due l g : g_due (mark_ready l g) = g_due g.
+Proof. unfold mark_ready. destruct (g_kind g); auto. destruct (answers fd dir l); auto. Qed.
+
+Lemma mark_ready_set l g fd dir :
+  g_kind g = KNet fd dir -> answers fd dir l = true -> g_ready (mark_ready l g) = true.
+Proof. intros Hk Ha. unfold mark_ready. rewrite Hk, Ha. reflexivity. Qed.
+
+Lemma good_poll_ready s timeout raw rest :
+  Good s ->
+  Good (emit (EPoll timeout (fdset_of (fds (s_net s)))
+                (PReady (answer_of (map (apply_poll raw) (fds (s_net s))))))
+          (set_polls (net_set_fds s (map (apply_poll raw) (fds (s_net s)))) rest)).
+Proof.
+  intros [c [Hc HS]].
+  set (n := s_net s). set (f' := map (apply_poll raw) (fds n)). set (l := answer_of f').
+  set (n' := net_with n (socks n) f').
+  assert (HIn' : NetInv n') by (apply map_rev_inv; [apply (sm_net s c HS) | apply apply_poll_rev_only]).
+  apply (Good_emit2 s _ _ c {| c_live := map (mark_ready l) (c_live c); c_used := c_used c; c_lastpoll := l;
+                               c_clock := c_clock c |}); [exact Hc | reflexivity | reflexivity |].
+  assert (Hlook : forall fd, rb_is_none (rev_at n' fd) = false -> lookup_fd fd l = Some (rev_at n' fd)).
+  { intros fd Hnz. unfold rev_at in *. destruct (slot n' fd) as [p|] eqn:Es; [|discriminate].
+    unfold l. change f' with (fds n'). apply answer_lookup; auto. }
+  apply Sim_build.
+  - apply (map_common s _ c (mark_ready l) l (c_clock c) HS (mark_ready_ids l)); reflexivity.
+  - apply (map_frame_imm s _ c (mark_ready l) l (c_clock c) HS (mark_ready_ids l)); reflexivity.
+  - simpl. fold n. fold f'. fold n'. split; [exact HIn'|]. split; [|split; [|split]].
+    + intros fd dir rc H. apply (map_live_rid c (mark_ready l) l (c_clock c) (mark_ready_ids l)).
+      eapply (sm_net1 s c HS); eauto.
+    + intros g' fd dir Hg' Hk. apply in_map_iff in Hg'. destruct Hg' as [g [<- A]].
+      destruct (mark_ready_ids l g) as [X Y]. rewrite X. eapply (sm_net2 s c HS); eauto. congruence.
+    + intros fd dir rc g' Hrv H Hg' Er. left. apply in_map_iff in Hg'. destruct Hg' as [g [<- A]].
+      destruct (mark_ready_ids l g) as [X Y]. rewrite X in Er.
+      (* g is the entry of this descriptor and direction *)
+      destruct (sm_net1 s c HS fd dir rc H) as [g1 [A1 [B1 C1]]].
+      assert (g1 = g) by (eapply nodup_rid_eq; [apply (sm_nodup s c HS) | | | ]; eauto; congruence). subst g1.
+      apply (mark_ready_set l g fd dir C1). unfold answers.
+      rewrite (Hlook fd (rb_dir_nonzero _ _ Hrv)). exact Hrv.
+    + intros fd Hrv. unfold errhup_for. rewrite (Hlook fd (rb_errhup_nonzero _ Hrv)). exact Hrv.
+  - apply (map_frame_tmr s _ c (mark_ready l) l (c_clock c) HS (mark_ready_ids l)); [reflexivity|].
+    apply mark_ready_due.
+Qed.
+
+Lemma rev_at_zero n fd : rev_at (net_with n (socks n) (map (pf_set_rev rb_none) (fds n))) fd = rb_none.
+Proof.
+  unfold rev_at. rewrite map_rev_slot. destruct (slot n fd); reflexivity.
+Qed.
+
+Lemma good_poll_eintr s timeout b rest :
+  Good s ->
+  Good (emit (EPoll timeout (fdset_of (fds (s_net s))) (PEintr b))
+          (set_polls (net_set_fds s (map (pf_set_rev rb_none) (fds (s_net s)))) rest)).
+Proof.
+  intros [c [Hc HS]].
+  set (n := s_net s). set (n' := net_with n (socks n) (map (pf_set_rev rb_none) (fds n))).
+  assert (HIn' : NetInv n') by (apply map_rev_inv; [apply (sm_net s c HS) | apply zero_rev_only]).
+  apply (Good_emit2 s _ _ c {| c_live := c_live c; c_used := c_used c; c_lastpoll := [];
+                               c_clock := c_clock c |}); [exact Hc | reflexivity | reflexivity |].
+  apply Sim_build.
+  - exact (conj (sm_nodup _ _ HS) (conj (sm_used _ _ HS) (conj (sm_fresh _ _ HS) (conj (sm_cl _ _ HS)
+      (conj (sm_vars _ _ HS) (conj (sm_vars_fresh _ _ HS) (sm_env _ _ HS))))))).
+  - exact (conj (sm_imm _ _ HS) (sm_imm_nodup _ _ HS)).
+  - simpl. fold n. fold n'. split; [exact HIn'|]. split; [|split; [|split]].
+    + intros fd dir rc H. eapply (sm_net1 s c HS); eauto.
+    + intros g fd dir Hg Hk. eapply (sm_net2 s c HS); eauto.
+    + intros fd dir rc g Hrv. unfold n' in Hrv. rewrite rev_at_zero in Hrv. destruct dir; discriminate.
+    + intros fd Hrv. unfold n' in Hrv. rewrite rev_at_zero in Hrv. discriminate.
+  - exact (conj (sm_tmr _ _ HS) (sm_tmr_nodup _ _ HS)).
+Qed.
+
+Lemma Good_congr s s' :
+  Good s -> s_tr s' = s_tr s ->
+  s_cl s' = s_cl s -> s_imm s' = s_imm s -> s_net s' = s_net s -> s_tmr s' = s_tmr s -> s_env s' = s_env s ->
+  Good s'.
+Proof.
+  intros [c [Hc HS]] E0 E1 E2 E3 E4 E5. exists c. split; [rewrite E0; exact Hc|].
+  eapply Sim_congr; eauto.
+Qed.
+
+Lemma good_poll_loop timeout pl : forall s, Good s -> Good (poll_loop timeout pl s).
+Proof.
+  induction pl as [|a rest IH]; intros s HG; cbn [poll_loop].
+  - eapply Good_congr; [apply (good_poll_eintr s timeout true []); exact HG | | | | | |]; reflexivity.
+  - destruct a as [raw | [|]].
+    + apply good_poll_ready. exact HG.
+    + eapply Good_congr; [apply (good_poll_eintr s timeout true rest); exact HG | | | | | |]; reflexivity.
+    + destruct (s_intr s).
+      * apply good_poll_eintr. exact HG.
+      * apply IH. apply good_poll_eintr. exact HG.
+Qed.
+
+Lemma poll_loop_inited timeout pl : forall s,
+  net_inited (s_net (poll_loop timeout pl s)) = net_inited (s_net s).
+Proof.
+  induction pl as [|a rest IH]; intros s; cbn [poll_loop]; [reflexivity|].
+  destruct a as [raw | [|]]; try reflexivity.
+  destruct (s_intr s); [reflexivity|]. rewrite IH. reflexivity.
+Qed.
+
+Lemma good_set_net_views s n' :
+  Good s -> NetInv n' ->
+  (forall f d, field n' f d = field (s_net s) f d) ->
+  (forall f, rev_at n' f = rev_at (s_net s) f) ->
+  Good (set_net s n').
+Proof.
+  intros [c [Hc HS]] HI Hf Hr. exists c. split; [exact Hc|]. apply sim_net_views; auto.
+Qed.
+
+Lemma good_net_select tvo s : Good s -> Good (net_select tvo s) /\ net_inited (s_net (net_select tvo s)) = true.
+Proof.
+  intros HG. unfold net_select.
+  assert (HG1 : Good (set_net s (net_init (s_net s)))).
+  { destruct HG as [c [Hc HS]]. pose proof (sm_net s c HS) as HI.
+    apply good_set_net_views; [exists c; auto | apply net_init_inv; exact HI | |].
+    - intros f d. apply net_init_field. exact HI.
+    - intros f. unfold rev_at. rewrite net_init_slot by exact HI. reflexivity. }
+  set (s0 := set_net s (net_init (s_net s))) in *.
+  pose proof (good_poll_loop (sel_timeout tvo) (polls (s_env s0)) s0 HG1) as HG2.
+  set (s1 := poll_loop (sel_timeout tvo) (polls (s_env s0)) s0) in *.
+  split.
+  - destruct HG2 as [c [Hc HS]]. apply good_set_net_views; [exists c; auto | | |].
+    + pose proof (sm_net s1 c HS) as HI. destruct HI. constructor; simpl; auto.
+    + intros f d. reflexivity.
+    + intros f. reflexivity.
+  - simpl. unfold s1. rewrite poll_loop_inited. unfold s0. simpl. apply net_init_inited.
 Qed.
